@@ -1,3 +1,89 @@
-From BiomV Require Import Model.Hdf5.
-Theorem placeholder : True. Proof. exact I. Qed.
-Print Assumptions placeholder.
+(* C04  Written HDF5 files conform to BIOM 2.1; the CSR and CSC copies agree.
+   Model: Model/Hdf5.v (to_hdf5, conforms, spec_decode_csr/csc), Model/Sparse.v;
+   proofs in Proofs/SparseProofs.v (K5, K6) and Proofs/Hdf5Proofs.v. *)
+From Coq Require Import List ZArith Bool.
+From BiomV Require Import Base.ListUtil Base.Matrix Model.Table Model.Sparse Model.Hdf5
+                          Proofs.SparseProofs Proofs.Utf8Proofs Proofs.Hdf5Proofs.
+Import ListNotations.
+
+(* [core] K5: converting a compressed matrix to the other orientation (scipy tocsc / tocsr) of ANY
+   well-formed representation gives a well-formed representation with sorted indices that
+   denotes the transposed dense matrix *)
+Theorem tocsc_ok : forall r, wf_cs r ->
+  wf_cs (tocsc r) /\ sorted_cs (tocsc r) /\ dense_of (tocsc r) = transpose (minor r) (dense_of r).
+Proof. exact SparseProofs.tocsc_ok. Qed.
+Print Assumptions tocsc_ok.
+
+(* [core] K6: eliminate_zeros keeps the matrix, leaves no stored zero and stores exactly the
+   non-zero cells *)
+Theorem eliminate_zeros_ok : forall r, wf_cs r ->
+  wf_cs (eliminate_zeros r)
+  /\ major (eliminate_zeros r) = major r /\ minor (eliminate_zeros r) = minor r
+  /\ dense_of (eliminate_zeros r) = dense_of r
+  /\ no_stored_zero (eliminate_zeros r)
+  /\ length (data (eliminate_zeros r)) = count_nonzero (dense_of r).
+Proof. exact SparseProofs.eliminate_zeros_ok. Qed.
+Print Assumptions eliminate_zeros_ok.
+
+(* [core] every table state (any well-formed layout of the held matrix, any dimensions including
+   0 x M, N x 0, and all-zero matrices) is written to a file that satisfies the BIOM 2.1
+   conformance predicate; shape = the true dimensions, nnz = the true number of non-zero cells;
+   a reader following only the specification decodes the observation (CSR) copy and the
+   sample (CSC) copy to the same matrix, the table's; the ids datasets hold the ids in order *)
+Theorem hdf5_conforms : forall st genby date,
+  wf_state st -> meta_ok st -> type_in_vocab st ->
+  exists f,
+    to_hdf5 st genby date = ROk f /\ conforms f
+    /\ get_attr (attrs f) b_shape = Some (AInts [Z.of_nat (length (st_oids st)); Z.of_nat (length (st_sids st))])
+    /\ length (st_mat st) = length (st_oids st) /\ rect (length (st_sids st)) (st_mat st)
+    /\ get_attr (attrs f) b_nnz = Some (AInt (Z.of_nat (count_nonzero (st_mat st))))
+    /\ spec_decode_csr f = Some (st_mat st) /\ spec_decode_csc f = Some (st_mat st)
+    /\ (st_oids st <> [] -> exists d, get_dset (dsets f) [b_observation; b_ids] = Some d /\ d_str d = map utf8_encode (st_oids st))
+    /\ (st_sids st <> [] -> exists d, get_dset (dsets f) [b_sample; b_ids] = Some d /\ d_str d = map utf8_encode (st_sids st)).
+Proof. exact Hdf5Proofs.hdf5_conforms. Qed.
+Print Assumptions hdf5_conforms.
+
+(* what acceptance by the specification decoder means: offsets of the right length starting at
+   0, monotone, ending at the number of stored values; indices in range, no index twice in a
+   row / column; no stored zero; as many stored values as nnz says *)
+Theorem spec_decoder_checks : forall f a mj mn r, spec_arrays f a mj mn = Some r ->
+  wf_csb r = true /\ no_stored_zerob r = true /\ major r = mj /\ minor r = mn
+  /\ get_attr (attrs f) b_nnz = Some (AInt (Z.of_nat (length (data r)))).
+Proof. exact Hdf5Proofs.spec_decoder_checks. Qed.
+Print Assumptions spec_decoder_checks.
+
+(* the two stored copies themselves, for any layout of the held matrix *)
+Theorem writer_matrices : forall st, wf_cs (st_cs st) ->
+  (wf_cs (w_obs st) /\ major (w_obs st) = st_nobs st /\ minor (w_obs st) = st_nsamp st
+   /\ dense_of (w_obs st) = st_mat st /\ no_stored_zero (w_obs st) /\ length (data (w_obs st)) = w_nnz st)
+  /\ (wf_cs (w_samp st) /\ major (w_samp st) = st_nsamp st /\ minor (w_samp st) = st_nobs st
+      /\ dense_of (w_samp st) = transpose (st_nsamp st) (st_mat st) /\ no_stored_zero (w_samp st)
+      /\ length (data (w_samp st)) = w_nnz st /\ sorted_cs (w_samp st))
+  /\ w_nnz st = count_nonzero (st_mat st).
+Proof. exact Hdf5Proofs.writer_matrices. Qed.
+Print Assumptions writer_matrices.
+
+(* the hypotheses are satisfiable by the standard witness (3 x 4, all-zero row, unsorted indices,
+   one stored zero) and by the boundary shapes *)
+Example hdf5_conforms_nonvacuous :
+  wf_state demo_st /\ meta_ok demo_st /\ type_in_vocab demo_st
+  /\ sorted_csb demo_cs = false /\ no_stored_zerob demo_cs = false.
+Proof.
+  exact (conj demo_wf (conj (proj1 demo_meta) (conj (proj2 demo_meta)
+        (conj (proj1 demo_layout) (proj1 (proj2 demo_layout)))))).
+Qed.
+Print Assumptions hdf5_conforms_nonvacuous.
+
+Example hdf5_conforms_empty_axes :
+  wf_state (mkSt [] [[115]]%Z CSR (mkCS 0 1 [0] [] []) None None None None [] [])
+  /\ wf_state (mkSt [[111]]%Z [] CSC (mkCS 0 1 [0] [] []) None None None None [] [])
+  /\ wf_state (mkSt [[111]; [112]]%Z [[115]]%Z CSR (mkCS 2 1 [0; 1; 1] [0] [0%Z]) None None None None [] []).
+Proof. split; [|split]; apply wf_stateb_sound; reflexivity. Qed.
+Print Assumptions hdf5_conforms_empty_axes.
+
+(* [more] sort_indices keeps the matrix and sorts every segment *)
+Theorem sort_indices_ok : forall r, wf_cs r ->
+  wf_cs (sort_indices r) /\ sorted_cs (sort_indices r) /\ dense_of (sort_indices r) = dense_of r
+  /\ major (sort_indices r) = major r /\ minor (sort_indices r) = minor r.
+Proof. exact SparseProofs.sort_indices_ok. Qed.
+Print Assumptions sort_indices_ok.
